@@ -118,7 +118,7 @@ Proof.
     cbn [wf_b proved_fragment leaves_ok denote]; auto.
   - (* leaf *) intros d _ _ [L _]. exact L.
   - (* attr *) intros w IH Hw Hf Hl. apply attr_good; auto.
-  - (* boxadapter *) intros w IH h Hw Hf Hl. apply boxadapter_good; try lia. apply IH; auto; lia.
+  - (* boxadapter *) intros w IH h Hw Hf Hl. apply (boxadapter_good 1 1); try lia. apply IH; auto; lia.
   - (* padding *) intros w IH a wt mw l r Hw Hf Hl.
     apply padding_good; try lia.
     + apply IH; auto; lia.
@@ -127,12 +127,12 @@ Proof.
     apply filler_good; try lia. apply IH; auto; lia.
   - (* pile *) intros items IH fp Hw Hf Hl.
     destruct (IH (pile_sizing (denote_p items)) ltac:(lia) ltac:(lia) Hl) as [A B].
-    apply pile_good; auto. apply denote_p_nonempty. lia.
+    apply pile_good; auto; try lia. intros _. apply denote_p_nonempty. lia.
   - (* columns *) intros items IH d mw fp Hw Hf Hl.
     destruct (IH (cols_sizing (denote_c items)) ltac:(lia) ltac:(lia) Hl) as [A B].
-    apply cols_good; auto; lia.
+    apply (cols_good 1); auto; lia.
   - (* frame *) intros body IHb hd IHh ft IHf fpart Hw Hf Hl. destruct Hl as [L1 [L2 L3]].
-    apply frame_good; try lia.
+    apply (frame_good 1 1); try lia.
     + apply IHb; auto; lia.
     + apply IHh; auto; lia.
     + apply IHf; auto; lia.
@@ -140,7 +140,8 @@ Proof.
     repeat match type of Hw with (_ && _) = true => apply andb_prop in Hw; let H := fresh "W" in destruct Hw as [Hw H] end.
     repeat match type of Hf with (_ && _) = true => apply andb_prop in Hf; let H := fresh "P" in destruct Hf as [Hf H] end.
     apply overlay_good; auto.
-    eapply overlay_given_of_bools; eauto.
+    + exists 1. auto.
+    + eapply overlay_given_of_bools; eauto.
   - (* PNil *) intros ps _ _ _. split; constructor.
   - (* PCons *) intros w IHw k n r IHr ps Hw Hf Hl. cbn [wf_p proved_fragment_p leaves_ok_p denote_p] in *.
     destruct Hl as [Hl1 Hl2].
